@@ -8,6 +8,8 @@ def parseRaceStep (w : String) : Option Step :=
   let n := (w.drop 1).toString.toNat?
   if w == "m" then some .mainRecv
   else if w == "g" then some .mainGiveUp
+  else if w == "K" then some .callerCancel
+  else if w == "b" then some .mainAbort
   else if w == "a" then some .accept
   else if w == "p" then some .pickPrimary
   else match w.take 1 |>.toString, n with
@@ -29,7 +31,7 @@ def raceLoop (s : St) (ws : List String) (k : Nat) : String :=
   | [] =>
     let opens := (List.range s.tasks.length).filter fun i => task s i == .established || task s i == .handed
     let won := ((List.range s.tasks.length).filter fun i => task s i == .handed).length
-    s!"returned={if s.gaveUp then "failed" else showOptNat s.returned} open=[{String.intercalate "," (opens.map toString)}] won={won} primary={showOptNat s.primary} authed=[{String.intercalate "," (s.authed.map toString)}]"
+    s!"returned={if s.gaveUp then "failed" else if s.aborted then "cancelled" else showOptNat s.returned} open=[{String.intercalate "," (opens.map toString)}] won={won} primary={showOptNat s.primary} authed=[{String.intercalate "," (s.authed.map toString)}]"
   | w :: rest =>
     match parseRaceStep w with
     | none => "bad-op"
